@@ -8,7 +8,7 @@ SPEC = {
                 nontriv=lambda s: s.n // s.ppn > 1 and s.routing != 'NONE'),
     'C02': dict(prop='Properties_C02.v', kinds=['mixed', 'storm'], oracles=[T.oracle_barrier], gen=[],
                 nontriv=lambda s: any(m.get('parent', -1) >= 0 for u, m in s.meta.items() if isinstance(u, int))),
-    'C03': dict(prop='Properties_C03.v', kinds=['collective', 'mixed', 'storm', 'masked', 'stream'], oracles=[T.oracle_liveness], gen=[],
+    'C03': dict(prop='Properties_C03.v', kinds=['collective', 'mixed', 'storm', 'masked', 'stream', 'amplify'], oracles=[T.oracle_liveness], gen=[],
                 nontriv=lambda s: s.bufkb <= 1 or s.nirecv == 1 or s.freq == 1),
     'C05': dict(prop='Properties_C05.v', kinds=['mixed'], oracles=[lambda s, r: T.oracle_exactly_once(s, r, kinds=('B', 'M'))], gen=['Gen_layout', 'Gen_bcast'],
                 nontriv=lambda s: any(m['kind'] in ('B', 'M') for u, m in s.meta.items() if isinstance(u, int)) and s.n > 1),
@@ -70,7 +70,7 @@ def run(pid, tier, seed, replay=None):
             state['dtor_observations'] = state.get('dtor_observations', 0) + nobs
         ls = []
         if with_lockstep:
-            sub = [s for s in scens if s.kind in ('mixed', 'storm', 'masked', 'aggregate', 'stream')]
+            sub = [s for s in scens if s.kind in ('mixed', 'storm', 'masked', 'aggregate', 'stream', 'amplify')]
             sub = sub if tier_ == 'quick' else sub[:400]
             ls = list(zip(sub, T.lockstep_many(sub)))
         return scens, runs, fails, ls
